@@ -58,6 +58,7 @@ type srvSc struct {
 	BigProv  bool     `json:"big_prov"`    // providers carry ~8 KiB of addresses each (4 MiB budget reachable when NProv is large)
 	Filter   string   `json:"addr_filter"` // "" | nolo
 	Reqs     []srvReq `json:"reqs"`
+	tainted bool // set while running: a byte-flipped frame of unknown effect was sent; state-dependent provider clauses are off
 }
 
 var (
@@ -181,7 +182,18 @@ func (sc *srvSc) wire(r srvReq) ([]byte, *pb.Message) {
 	case 3:
 		if len(out) > 3 {
 			out[len(out)/2] ^= 0x5a
-			return out, nil // may or may not still parse: only "answer or reset" is asserted
+			// The flipped frame may still be one well-formed message (a changed byte inside a key, an address, a peer id): then
+			// that message is what the handler sees, it is judged like any other, and the model learns its effects. Otherwise
+			// (length prefix no longer matches, payload no longer parses) only "answer or reset" is asserted and the stream is
+			// dropped; what the handler made of a shorter prefix of the bytes is not modelled, which taints the provider model.
+			if l, n := binary.Uvarint(out); n > 0 && int(l) == len(out)-n {
+				dec := new(pb.Message)
+				if proto.Unmarshal(out[n:], dec) == nil {
+					return out, dec
+				}
+			}
+			sc.tainted = true
+			return out, nil
 		}
 	}
 	// what the handler will see is the decoded form
@@ -584,7 +596,7 @@ func judgeServerResponse(res *verifsim.Result, sc *srvSc, d *IpfsDHT, step strin
 		seen := map[peer.ID]bool{}
 		for _, mp := range resp.ProviderPeers {
 			id := peer.ID(mp.Id)
-			if !known[id] && !addedBySender(d, key, id) {
+			if !known[id] && !addedBySender(d, key, id) && !sc.tainted {
 				return fail("providers-stored", "C09/getproviders/unknown-provider", "provider %s was never stored for the key", shortID(id))
 			}
 			if seen[id] {
@@ -630,7 +642,7 @@ func judgeServerResponse(res *verifsim.Result, sc *srvSc, d *IpfsDHT, step strin
 			nDec := len((&pb.Message_Peer{Id: mp.Id, Addrs: mp.Addrs}).Addresses())
 			if id != sender {
 				*bounds++
-				if stored[id] && !provOf[string(key)][id] {
+				if stored[id] && !provOf[string(key)][id] && !sc.tainted {
 					return fail("sender-only", "C09/addprovider/foreign-provider-stored", "provider %s stored although the authenticated sender is %s", shortID(id), shortID(sender))
 				}
 				continue
@@ -642,7 +654,7 @@ func judgeServerResponse(res *verifsim.Result, sc *srvSc, d *IpfsDHT, step strin
 		if wantSender && !stored[sender] {
 			return fail("add-provider-stores", "C09/addprovider/not-stored", "valid ADD_PROVIDER from %s not stored", shortID(sender))
 		}
-		if !wantSender && stored[sender] && !addedBySender(d, key, sender) && !provOf[string(key)][sender] {
+		if !wantSender && stored[sender] && !addedBySender(d, key, sender) && !provOf[string(key)][sender] && !sc.tainted {
 			return fail("add-provider-requires", "C09/addprovider/stored-invalid", "ADD_PROVIDER without address / with bad key stored the sender as provider (key %d bytes)", len(key))
 		}
 		if wantSender {
@@ -724,8 +736,15 @@ func genSrvReq(t *rapid.T) srvReq {
 	return r
 }
 
-func TestVerif_C09_Server(t *testing.T) {
-	verifsim.RunCheck(t, verifsim.Check[srvSc]{
+func TestVerif_C09_Server(t *testing.T) { verifsim.RunCheck(t, c09ServerCheck()) }
+
+// the same generator and oracle driven by Go's coverage-guided fuzzer (thorough tier)
+func FuzzVerif_C09_Server(f *testing.F) {
+	verifsim.RunFuzz(f, c09ServerCheck(), "TestVerif_C09_Server")
+}
+
+func c09ServerCheck() verifsim.Check[srvSc] {
+	return verifsim.Check[srvSc]{
 		Property: "C09", Part: "server",
 		Rule: "rapid: a server-mode (or client-mode) node with drawn state (0-25 routing-table peers, some without / with >8 KiB of peerstore addresses, stored values, 0-3 provider keys with 1-30 providers, " +
 			"occasionally 600 providers x ~8 KiB so that the 4 MiB budget bites) receives 1-6 requests over fake inbound streams from 3 senders x 2 streams: structured messages of every type incl. unknown enums x key " +
@@ -754,5 +773,5 @@ func TestVerif_C09_Server(t *testing.T) {
 			return sc
 		},
 		Run: func(t *testing.T, sc srvSc) verifsim.Result { return runServer(t, &sc) },
-	})
+	}
 }
